@@ -7,7 +7,9 @@ use clap::Parser;
 use serde_json::{Value, json};
 use std::path::Path;
 
-const LITS: &[&str] = &["a", "b", "src", "x.y", "n m", "é", ".", "rs", "py", ".rs", ".py", "]", ",", "!", "-", "main", "lib", "ß", "日本", "a/b", "/", "/", "/"];
+const LITS: &[&str] = &["a", "b", "src", "x.y", "n m", "é", ".", "rs", "py", ".rs", ".py", "]", ",", "!", "-", "main", "lib", "ß", "日本", "a/b", "/", "/", "/",
+    // escaped characters: literals whatever they are (a lone backslash at the end of a glob would be an error: never generated)
+    "\\[", "\\]", "\\*", "\\?", "\\{", "\\}", "\\\\", "\\a", "\\/", "\\[slug\\]", "\\é"];
 const SPECIAL: &[&str] = &["*", "**", "?", "/", "**/", "/**", "/**/", "*.", "*"];
 
 fn some_glob(rng: &mut Rng) -> String {
@@ -58,6 +60,11 @@ fn path_from(rng: &mut Rng, g: &str) -> String {
         } else if cs[i] == '?' {
             out.push(*rng.pick(&['a', '/', '.', 'z']));
             i += 1;
+        } else if cs[i] == '\\' && i + 1 < cs.len() {
+            // an escaped character stands for itself (one path in eight keeps the backslash instead: must not match)
+            if rng.chance(1, 8) { out.push('\\'); }
+            out.push(cs[i + 1]);
+            i += 2;
         } else {
             out.push(cs[i]);
             i += 1;
